@@ -23,9 +23,15 @@
                        the IMPLEMENTATION's scripts (spec_ok), together with C02_model_priced for the model.
    `numtext_ok`: numeric leaves have a non-empty str() (true of every int, float, bool); `consistent`: the
    serialiser's invariant relating str() and numeric value of two leaves of the same class.
-   The command-line half (exit status, change marks; EqualSpec.holds_C02_cli) is checked on the implementation only. *)
+   Command-line half.  `had_edits e` is what graphtage.__main__ turns into the exit status: is any edit of the flat view
+   (get_all_edits = ScriptSpec.flat_costs) of non-zero cost.  Proved for all documents, oracles and option sets:
+     C02_exit_flat     for every additive, priced script the flag is set iff the total cost is positive;
+     C02_exit_cost     for every script of the model: exit status 0 iff cost 0, exit status 1 iff cost > 0;
+     C02_exit          under the hypotheses of C02_partial: exit status 0 iff the documents are equal as data, 1 iff not;
+     C02_exit_cli      the model's exit status is the value EqualSpec.cli_exit_ok compares the OBSERVED status with.
+   The change marks of the rendered output (cli_marks_ok) are checked on the implementation only (and by C06). *)
 From Coq Require Import ZArith List Bool.
-Require Import GT.Data GT.ScriptSpec GT.ScriptModel GT.EqualSpec GT.ScriptKnown GT.EqualProofs.
+Require Import GT.Data GT.ScriptSpec GT.ScriptModel GT.EqualSpec GT.ScriptKnown GT.EqualProofs GT.ExitProofs.
 Import ListNotations.
 Open Scope Z_scope.
 
@@ -77,6 +83,24 @@ Theorem C02_zsim_data : forall a b,
   zsim a b = true -> data_eqb a b = true.
 Proof. exact zsim_data. Qed.
 
+Theorem C02_exit_flat : forall a b e, priced a b e = true -> additive e = true ->
+  0 <= cost e /\ (had_edits e = true <-> 0 < cost e) /\ (had_edits e = false <-> cost e = 0).
+Proof. exact had_edits_spec. Qed.
+
+Theorem C02_exit_cost : forall O pa pb a b e, wf a = true -> wf b = true -> script O pa pb a b = OK e ->
+  (exit_status e = 0 <-> cost e = 0) /\ (exit_status e = 1 <-> 0 < cost e).
+Proof. exact exit_status_cost. Qed.
+
+Theorem C02_exit : forall O pa pb a b e,
+  wf a = true -> wf b = true -> numtext_ok a = true -> numtext_ok b = true -> consistent a b = true ->
+  typed a b = true -> nozero a = true -> nozero b = true ->
+  script O pa pb a b = OK e -> (exit_status e = 0 <-> data_eqb a b = true) /\ (exit_status e = 1 <-> data_eqb a b = false).
+Proof. exact exit_status_equal. Qed.
+
+Theorem C02_exit_cli : forall O pa pb a b e, wf a = true -> wf b = true -> script O pa pb a b = OK e ->
+  exit_status e = (if cost e =? 0 then 0 else 1).
+Proof. exact exit_status_cli. Qed.
+
 (* the hypotheses of C02_partial are satisfiable by non-trivial documents, with both outcomes *)
 Example C02_example_equal : exists e,
   hyps_C02 (ex_doc true 120) (ex_doc false 120) = true /\
@@ -99,3 +123,7 @@ Print Assumptions C02_classified.
 Print Assumptions C02_spec_sound.
 Print Assumptions C02_model_priced.
 Print Assumptions C02_zsim_data.
+Print Assumptions C02_exit_flat.
+Print Assumptions C02_exit_cost.
+Print Assumptions C02_exit.
+Print Assumptions C02_exit_cli.
